@@ -319,15 +319,27 @@ def as_atom(p, hint="d"):
                 C.rule(tuple(x.dagger() for x in reversed(w)), NC.of(a.dagger()))
             _renormalise_defs()
         return a, c
-    key = ("def", frozenset((w, c.key()) for w, c in p.t.items()))
+    # canonical scaling: the coefficient of the first word (shortest, then by atom ids) becomes 1
+    def canon(q):
+        w0 = min(q.t, key=lambda w: (len(w), tuple(x.uid for x in w)))
+        c0 = q.t[w0]
+        qq = q.scale(A.ONE / c0)
+        return qq, c0, ("def", frozenset((w, c.key()) for w, c in qq.t.items()))
+
+    q, c0, key = canon(p)
     a = C.atoms.get(key)
-    if a is None:
-        pd = p.dagger()
-        herm = p.rows == p.cols and is_zero(p - pd)
-        a = Atom(f"{hint}{len(C.atoms)}", p.rows, p.cols, herm=herm, kind="def")
-        C.atoms[key] = a
-        C.defs[a] = p
-    return a, A.ONE
+    if a is not None:
+        return a, c0
+    # the adjoint of an already defined operand
+    qd, cd, keyd = canon(p.dagger())
+    ad = C.atoms.get(keyd)
+    if ad is not None:
+        return ad.dagger(), cd
+    herm = p.rows == p.cols and is_zero(q - q.dagger())
+    a = Atom(f"{hint}{len(C.atoms)}", p.rows, p.cols, herm=herm, kind="def")
+    C.atoms[key] = a
+    C.defs[a] = q
+    return a, c0
 
 
 def define(p, hint="d"):
@@ -413,6 +425,12 @@ def sqrtm(p):
     S S = A; sqrtm(c A) = sqrt(c) sqrtm(A) for c > 0; sqrtm(inv(A)) = inv(sqrtm(A))."""
     C = ctx()
     C.assumed.add("sqrtm")
+    p = normalise(p)
+    if len(p.t) == 1:
+        ((w, c0),) = p.t.items()
+        if len(w) == 2 and w[0] is w[1] and w[0].herm:
+            # sqrtm(c S S) = sqrt(c) S for a Hermitian positive S (uniqueness of the principal root)
+            return NC({(w[0],): A.qpow(c0, Fraction(1, 2))}, p.rows, p.cols)
     a, c = as_atom(p, "U")
     sc = A.qpow(c, Fraction(1, 2))
     if a is None:
